@@ -3,6 +3,8 @@
   Theorems are about the definitions of Model/Conc.lean (the ones the oracle executes) and about the
   synchronisation sequences regenerated from /repo into Gen/ConcFacts.lean. "For every schedule" is
   literal: `run st ls` for an arbitrary list `ls` of scheduler choices (disabled choices are skipped).
+  Central theorems: `snapshot_atomic`, `no_deadlock`, `commit_schedule_independent`, `accessed_under_lock`
+  (helpers: Proofs/C11.lean, C11Snap.lean — FileInv, C11Live.lean — CtlInv + progress, C11Fan.lean — counting).
 -/
 import GocoinV.Proofs.C11
 import GocoinV.Proofs.C11Live
@@ -105,6 +107,14 @@ example : Snap.Reachable (Snap.run (Snap.init [.commit, .idle, .close] [.abort] 
 theorem no_deadlock_needs_capacity :
     let st := Snap.run (Snap.init [.commit, .idle] [] 0) (List.replicate 15 .m ++ [.sStep, .sBegin 1])
     Snap.final st = false ∧ Snap.hasStep st = false := by decide
+
+-- OPEN: snapshot_liveness — under a FAIR schedule every run of the snapshot protocol reaches a final state (Close
+--   returns, every started save ends in a rename or a remove). `no_deadlock` only says that some step is always
+--   enabled; a variant (measure) argument over the fair scheduler is not done. The saver's timed polling loop
+--   (`time.After`) is abstracted to a non-deterministic choice.
+-- OPEN: snap_refines_source — that Snap/Fan/Pub are abstractions of the Go functions is NOT a theorem: the tie is
+--   the regenerated shape facts (`source_protocol_facts`, `accessed_under_lock`) plus the runtime monitor and the
+--   differential runs of the harness.
 
 example : SnapP.reading { pc := .hdr } = true := rfl
 
